@@ -733,6 +733,15 @@ func (c13) Gen(r *kern.Rng, tier string, idx int) *Trace {
 		sc.In = scen.InputSpec{Parts: []scen.StreamSpec{{Enc: "std", W: w}}}
 		sc.Dict = &d
 	}
+	if pkg == "zlib" && sc.Dict == nil && r.Pct(25) {
+		// a dictionary handed to Reset although the stream does not refer to one:
+		// NewReaderDict ignores it, so must Reset
+		d := scen.GenData(r, 3000)
+		if d.Len < 8 {
+			d.Len = 64
+		}
+		sc.Dict = &d
+	}
 	sc.Src = genSrc(r, false)
 	sc.Del = genDelivery(r)
 	sc.Reads = genReads(r)
@@ -981,6 +990,13 @@ func (c18) ID() string           { return "C18" }
 func (c18) Runs(tier string) int { return tierLen(tier, 10000, 80000) }
 
 func (c18) Gen(r *kern.Rng, tier string, idx int) *Trace {
+	if idx%191 == 13 {
+		// content sweep for the per-level token encoders (see C01): judged at the forced level
+		sc := &scen.WScen{Pkg: "flate", Guard: true, Ctor: r.PickS("new", "new", "4k"), Level: r.Pick(1, 2, -1)}
+		sc.Data = scen.DataSpec{Kind: "logcopies", Seed: r.Uint64(), P1: r.Pick(0, 1), Len: r.Range(150000, 320000)}
+		sc.Ops = []scen.WOp{{K: "w", N: 1 << 30}, {K: "c"}}
+		return &Trace{Property: "C18", Family: "W-plain(content sweep) at the forced level", W: sc, Sweep: true, Stride: tierLen(tier, 40, 120), Note: "seed_sweep"}
+	}
 	if idx%5 == 4 {
 		// "at every level the compressor's output satisfies all the other
 		// properties": a Writer history checked with C01's and C19's oracles at
@@ -1062,6 +1078,11 @@ func noteSub(o *Outcome, k int, rec *scen.RRec) {
 }
 
 func (c18) Exec(tr *Trace, keep bool) *Outcome {
+	if tr.W != nil && tr.Sweep {
+		o := lengthSweep(tr, keep, func(c *Trace) *Outcome { return c18{}.Exec(c, keep) })
+		o.LevelIndep = false
+		return o
+	}
 	if tr.W != nil {
 		inner := tr.Clone()
 		inner.Property = "C01"
